@@ -486,6 +486,16 @@ func (c *Conn) loadSession(hello *clientHelloMsg) (
 			return nil, nil, nil, nil
 		}
 
+		// [UTLS SECTION START]
+		// A session established with extended_master_secret must not be
+		// offered by a ClientHello that lacks the extension: the server has to
+		// abort such a handshake (RFC 7627, Section 5.3). This happens when
+		// connections with different ClientHello specs share a session cache.
+		if session.extMasterSecret && !hello.extendedMasterSecret {
+			return nil, nil, nil, nil
+		}
+		// [UTLS SECTION END]
+
 		hello.sessionTicket = session.ticket
 		return
 	}
